@@ -67,7 +67,8 @@ def new_game(case):
     install_shuffle(fake)
     g = cls(deck=list(case["deck"]), discard=list(case["discard"]), p1_hand=list(case["p1"]), p2_hand=list(case["p2"]),
             turn=t, first_turn=t, max_turns=case.get("max_turns"),
-            **({"public_hud": {}} if case.get("hud0") == "empty" else {}))
+            **({"public_hud": {}} if case.get("hud0") == "empty" else {}),
+            **({"p1_points": 0, "p2_points": 0} if case.get("pts0") else {}))
     g._cv_fake = fake
     g._cv_ints = bool(case.get("ints"))
     return g
